@@ -388,6 +388,36 @@ def Sk.inflatedAbundances (s src : Sk) : Except Err (List Nat × Nat) := do
     let r := (inflateWalk s.mins (src.mins.zip ab)).map Prod.snd
     pure (r, r.foldl (· + ·) 0)
 
+/-! ### `calculate_gather_stats` (index/mod.rs): the part that depends on downsampling the match -/
+
+/-- the integer data behind the fields that involve the (downsampled) match: every `f_*` field is
+`num as f64 / den as f64` of the stored pair -/
+structure GStats where
+  intersectBp : Nat
+  remainingBp : Nat
+  uniqueIntersectBp : Nat
+  fOrigQuery : Nat × Nat
+  fMatch : Nat × Nat
+  fMatchOrig : Nat × Nat
+  fUniqueToQuery : Nat × Nat
+  deriving DecidableEq, Repr
+
+/-- `calculate_gather_stats` up to the float divisions (no abundance statistics, no ANI): the query is
+never downsampled (`CannotUpsampleScaled` when the match is coarser), the match is; the two
+`.expect(..)` on `downsample_scaled` / `intersection` are modelled as the error they would panic with. -/
+def gatherStats (k : Kind) (origQ remQ m : Sk) (matchSize : Nat) : Except Err GStats :=
+  if m.scaled > remQ.scaled then .error .CannotUpsampleScaled else do
+    let m' ← downsampleScaled k m remQ.scaled
+    let isect ← intersection k m' remQ
+    let io ← intersectionSize k m' origQ
+    pure { intersectBp := m'.scaled * io.1,
+           remainingBp := (remQ.mins.length - isect.1.length) * remQ.scaled,
+           uniqueIntersectBp := m'.scaled * isect.1.length,
+           fOrigQuery := (io.1, origQ.mins.length),
+           fMatch := (matchSize, m'.mins.length),
+           fMatchOrig := (io.1, m'.mins.length),
+           fUniqueToQuery := (isect.1.length, origQ.mins.length) }
+
 /-! ### `Signature::select`, the part that concerns MinHash sketches and a `scaled` request -/
 
 /-- retain test of the scaled block: num sketches (scaled() = 0) never satisfy a scaled request -/
